@@ -11,17 +11,19 @@ func SIReq() *Supergraph {
 			{Name: "items", Type: "[Item!]!"},
 			{Name: "item", Type: "Item"},
 		}},
-		{Name: "Item", Kind: "interface", Fields: []Field{{Name: "id", Type: "ID!"}, {Name: "estimate", Type: "String"}, {Name: "tag", Type: "String"}}},
+		{Name: "Item", Kind: "interface", Fields: []Field{{Name: "id", Type: "ID!"}, {Name: "estimate", Type: "String"}, {Name: "tag", Type: "String"}, {Name: "kin", Type: "[Gadget]"}}},
 		{Name: "Product", Kind: "object", Implements: []string{"Item"}, Keys: []Key{{Fields: "id"}}, Fields: []Field{
 			{Name: "id", Type: "ID!", Key: true},
 			{Name: "price", Type: "Int"},
 			{Name: "estimate", Type: "String", Requires: "price"},
 			{Name: "tag", Type: "String"},
+			{Name: "kin", Type: "[Gadget]"},
 		}},
 		{Name: "Gadget", Kind: "object", Implements: []string{"Item"}, Keys: []Key{{Fields: "id"}}, Fields: []Field{
 			{Name: "id", Type: "ID!", Key: true},
 			{Name: "estimate", Type: "String"},
 			{Name: "tag", Type: "String"},
+			{Name: "kin", Type: "[Gadget]"},
 			{Name: "watts", Type: "Int"},
 		}},
 	}}
@@ -31,10 +33,19 @@ func SIReqUniverse(s *Supergraph) *Universe {
 	p1 := Obj{"__typename": "Product", "id": "p1", "price": 10, "tag": "t1"}
 	p2 := Obj{"__typename": "Product", "id": "p2", "price": nil, "tag": nil}
 	g1 := Obj{"__typename": "Gadget", "id": "g1", "estimate": "plain", "tag": "t3", "watts": 5}
+	g2 := Obj{"__typename": "Gadget", "id": "g2", "estimate": nil, "tag": "t4", "watts": 7}
+	g3 := Obj{"__typename": "Gadget", "id": "g3", "estimate": "e3", "tag": nil, "watts": nil}
+	// lists with a duplicate or a null BEFORE an entity that is seen again later:
+	// the positions in the list and in the de-duplicated batch differ
+	p1["kin"] = []any{g1, g1, g2, g3, g2}
+	p2["kin"] = []any{nil, g1, g2, g1}
+	g1["kin"] = []any{g2}
+	g2["kin"] = nil
+	g3["kin"] = []any{}
 	return &Universe{S: s,
-		Objs: map[string][]Obj{"Product": {p1, p2}, "Gadget": {g1}},
+		Objs: map[string][]Obj{"Product": {p1, p2}, "Gadget": {g1, g2, g3}},
 		Root: map[string]Obj{"Query": {
-			"items": []any{p1, g1, p2},
+			"items": []any{p1, p1, p2, g1, p2},
 			"item":  p1,
 		}}}
 }
